@@ -47,14 +47,18 @@ CallSets == <<
   << <<C("exprsearch", 2, 1), C("exprsearch", 3, 2)>>, <<C("exprsearch", 6, 2), C("exprsearch", 1, 3)>>,
      <<C("search", 8, 1), C("exprsearch", 4, 1)>> >> >>
 
-VARIABLES cs, pc, sched, outs
-vars == <<cs, pc, sched, outs>>
+VARIABLES cs, pc, sched, outs, tab     \* tab: what each call of the chosen call set returns when run alone
+vars == <<cs, pc, sched, outs, tab>>
 NG == Len(CallSets[cs])
 Total(g) == Len(CallSets[cs][g]) * (Gates + 1)
 
-Expected(c) == IF c.op = "compile" THEN StaticAdmissible(Texts[c.t]) ELSE Admissible(Texts[c.t], Docs[c.d])
+ExpectedOf(c) == IF c.op = "compile" THEN StaticAdmissible(Texts[c.t]) ELSE Admissible(Texts[c.t], Docs[c.d])
+\* what each call of a call set returns when run alone; computed once, in the
+\* initial state, and carried unchanged (sorting the 140-element arrays in
+\* every state would dominate the run)
+TabOf(s) == [g \in 1..Len(CallSets[s]) |-> [i \in 1..Len(CallSets[s][g]) |-> ExpectedOf(CallSets[s][g][i])]]
 
-Init == cs \in First..NCallSets /\ pc = [g \in 1..Len(CallSets[cs]) |-> 0] /\ sched = <<>> /\ outs = <<>>
+Init == cs \in First..NCallSets /\ pc = [g \in 1..Len(CallSets[cs]) |-> 0] /\ sched = <<>> /\ outs = <<>> /\ tab = TabOf(cs)
 \* one segment of goroutine g; the last segment of a call is its End, where
 \* the outcome becomes visible to the caller
 Seg(g) == /\ pc[g] < Total(g)
@@ -62,23 +66,23 @@ Seg(g) == /\ pc[g] < Total(g)
           /\ sched' = Append(sched, g)
           /\ outs' = IF (pc[g] + 1) % (Gates + 1) = 0
                      THEN Append(outs, [g |-> g, i |-> (pc[g] + 1) \div (Gates + 1),
-                                        out |-> Expected(CallSets[cs][g][(pc[g] + 1) \div (Gates + 1)])])
+                                        out |-> tab[g][(pc[g] + 1) \div (Gates + 1)]])
                      ELSE outs
-          /\ UNCHANGED cs
+          /\ UNCHANGED <<cs, tab>>
 Next == \E g \in 1..NG : Seg(g)
 Spec == Init /\ [][Next]_vars
 Done == \A g \in 1..NG : pc[g] = Total(g)
 
 \* every completed call returned what it would return if run alone
-Pure == \A k \in 1..Len(outs) : outs[k].out = Expected(CallSets[cs][outs[k].g][outs[k].i])
+Pure == \A k \in 1..Len(outs) : outs[k].out = tab[outs[k].g][outs[k].i]
 Check ==
   LET case == [p |-> Prop, kind |-> "sched", pool |-> "ApiConc", gates |-> Gates,
                texts |-> [t \in 1..Len(Texts) |-> Render(Texts[t])],
                calls |-> [g \in 1..NG |-> [i \in 1..Len(CallSets[cs][g]) |->
                             LET c == CallSets[cs][g][i] IN
                               [op |-> c.op, t |-> c.t, d |-> c.d,
-                               adm |-> IF c.op = "compile" THEN {} ELSE Expected(c),
-                               sadm |-> IF c.op = "compile" THEN Expected(c) ELSE {}]]],
+                               adm |-> IF c.op = "compile" THEN {} ELSE tab[g][i],
+                               sadm |-> IF c.op = "compile" THEN tab[g][i] ELSE {}]]],
                sched |-> sched]
       \* the same call set, to be run ungated under the race detector
       racecase == [p |-> Prop, kind |-> "race", pool |-> "ApiConc", rounds |-> Rounds, goroutines |-> 8,
